@@ -489,6 +489,9 @@ pub enum Release {
     DropRequest,
     /// the request is executed, the reply is lost; the caller sees a broken connection
     DropReply,
+    /// the request is executed but its reply arrives after the caller's timeout: the caller sees a
+    /// timeout, the connection stays open and the unread reply stays on it (control connections)
+    LateReply,
 }
 
 pub struct Pending {
@@ -523,6 +526,8 @@ pub struct WorldState {
     pub gate: Option<GateFn>,
     pub agate: Option<AsyncGateFn>,
     pub delayed: Vec<ReqInfo>,
+    /// replies that arrived after their caller gave up, per connection id (unread bytes of a socket)
+    pub late: BTreeMap<String, Vec<RespVec>>,
     pub pending: Vec<Pending>,
     next_id: u64,
     conn_seq: u64,
@@ -624,6 +629,7 @@ impl World {
                 gate: None,
                 agate: None,
                 delayed: vec![],
+                late: BTreeMap::new(),
                 pending: vec![],
                 next_id: 0,
                 conn_seq: 0,
@@ -839,7 +845,17 @@ impl World {
             self.record("fault", from, to, cmds.first().unwrap_or(&vec![]), "reply lost".into());
             return Err(());
         }
+        if how == Release::LateReply {
+            self.record("fault", from, to, cmds.first().unwrap_or(&vec![]), "reply late (after the caller's timeout)".into());
+            self.0.st.lock().unwrap().late.entry(conn.to_string()).or_default().extend(replies);
+            return Err(());
+        }
         Ok(replies)
+    }
+
+    /// The late replies that have meanwhile arrived on this connection.
+    pub fn take_late(&self, conn: &str) -> Vec<RespVec> {
+        self.0.st.lock().unwrap().late.remove(conn).unwrap_or_default()
     }
 
     async fn execute_at(&self, from: &str, to: &str, c: &Cmd) -> Result<RespVec, ()> {
@@ -1062,6 +1078,9 @@ pub struct SimClient {
     owner: String,
     target: String,
     conn: String,
+    /// replies sitting unread on this connection (they arrived after a request had timed out);
+    /// like on a socket, the next reader gets them first
+    unread: std::collections::VecDeque<RespVec>,
 }
 
 impl RedisClient for SimClient {
@@ -1075,15 +1094,32 @@ impl RedisClient for SimClient {
                 None => return Err(RedisClientError::Canceled),
             };
             let io_err = || RedisClientError::Io(std::io::Error::new(std::io::ErrorKind::ConnectionReset, "reset"));
-            match command {
-                OptionalMulti::Single(c) => {
-                    let mut v = w.request(&self.conn, true, &self.owner, &self.target, vec![c]).await.map_err(|_| io_err())?;
-                    Ok(OptionalMulti::Single(v.pop().ok_or_else(io_err)?))
+            let (cmds, single) = match command {
+                OptionalMulti::Single(c) => (vec![c], true),
+                OptionalMulti::Multi(cs) => (cs, false),
+            };
+            let n = cmds.len();
+            let res = w.request(&self.conn, true, &self.owner, &self.target, cmds).await;
+            let late = w.take_late(&self.conn);
+            let timed_out = res.is_err() && !late.is_empty();
+            self.unread.extend(late);
+            let v: Vec<RespVec> = match res {
+                Ok(v) => {
+                    if self.unread.is_empty() {
+                        v
+                    } else {
+                        // positional matching on a byte stream: the oldest unread replies come first
+                        self.unread.extend(v);
+                        self.unread.drain(..n.min(self.unread.len())).collect()
+                    }
                 }
-                OptionalMulti::Multi(cs) => {
-                    let v = w.request(&self.conn, true, &self.owner, &self.target, cs).await.map_err(|_| io_err())?;
-                    Ok(OptionalMulti::Multi(v))
-                }
+                Err(()) => return Err(if timed_out { RedisClientError::Timeout } else { io_err() }),
+            };
+            if single {
+                let mut v = v;
+                Ok(OptionalMulti::Single(v.pop().ok_or_else(io_err)?))
+            } else {
+                Ok(OptionalMulti::Multi(v))
             }
         })
     }
@@ -1104,7 +1140,7 @@ impl RedisClientFactory for SimClientFactory {
             }
             st.conn_seq += 1;
             let conn = format!("{}=>{}#{}", self.owner, address, st.conn_seq);
-            Ok(SimClient { world: self.world.clone(), owner: self.owner.clone(), target: address, conn })
+            Ok(SimClient { world: self.world.clone(), owner: self.owner.clone(), target: address, conn, unread: Default::default() })
         })
     }
 }
